@@ -1,4 +1,4 @@
-FIX_COMMITS = ["4bfb28a9 (C04 distance of multi-part locations)", "cc9a0c1b (C04 offset_location end on wrap point)"]
+FIX_COMMITS = ["69b3d933 (C14 combine_modules trailing KR)", "4bfb28a9 (C04 distance of multi-part locations)", "cc9a0c1b (C04 offset_location end on wrap point)"]
 NOT_APPLICABLE_REASONS = {}
 CLAIMED = {
  "C04": {
@@ -11,5 +11,18 @@ CLAIMED = {
            "The correspondence run executes every public function of secmet.locations and Record.extend_location against the extracted model on "
            "30k (quick) / 600k (thorough) structured random inputs incl. origin-spanning and multi-exon locations of all strands."),
   "note": "Biopython's FeatureLocation/CompoundLocation semantics (start=min, end=max, strand=common or None, int membership half-open) are assumptions of the model, re-checked by the tie.",
+ },
+ "C14": {
+  "text": ("Proof about a faithful Gallina transcription of module_identification.py (Component predicates from class tables REGENERATED from the "
+           "source on every run, Module.add_component/ensure_suitable incl. look-ahead acceptance, build_modules_for_cds, combine_modules, "
+           "from_json o to_json). Proved for every finite domain sequence (C14/Theorems.v): build_modules_for_cds never fails (no "
+           "IncompatibleComponentError escapes and no assertion is reachable - by an invariant tying the look-ahead counter to the remaining input "
+           "and table facts checked by vm_compute), its modules are non-empty and their concatenated components are exactly the stably sorted "
+           "non-docking domains (in order, no loss, no duplication); is_complete <-> starter+loader+carrier (not loader-only in non-first position) "
+           "or trans-AT+carrier; shape of a successful combine_modules (all domains of head and tail in order, only for incomplete head, only if "
+           "complete, lists untouched otherwise). NOT yet proved (correspondence only): per-module layout invariants, totality of combine_modules, "
+           "reload identity. Correspondence: 20k (quick) / 300k (thorough) random and assembly-line-shaped genes and gene pairs, comparing "
+           "components, the six state slots and seven derived flags of every module, for build, build+reload and combine."),
+  "note": "HMMResult objects are built by the harness (no HMMER); KS subtypes are injected as internal hits.",
  },
 }
